@@ -181,8 +181,9 @@ func c07Establish(r *ev.Run, cs c07Case, caseID string) {
 	if sig != "" {
 		if cs.Restart >= 0 {
 			// name the state the surviving side was in: that is what identifies the failing history
-			sa, sb := n.end(0).ch.VerifSlots(), n.end(1).ch.VerifSlots()
-			sig = "C07/send-stuck/after-restart/A=" + slotClass(sa[1]) + "+" + slotClass(sa[2]) + ",B=" + slotClass(sb[1]) + "+" + slotClass(sb[2])
+			// name the state the surviving side was left in: that is what identifies the failing history. (The two ways of
+			// observing it — K quiescent retransmission rounds, or a quiet network with no handshake timer — are one failure.)
+			sig = "C07/send-stuck/after-restart/A.next=" + slotClass(n.end(0).ch.VerifSlots()[2])
 		}
 		r.Violate(sig, caseID, desc, det(map[string]any{"slots_A": fmt.Sprintf("%+v", n.end(0).ch.VerifSlots()), "slots_B": fmt.Sprintf("%+v", n.end(1).ch.VerifSlots())}))
 		return
